@@ -1132,6 +1132,44 @@ func oracleC03(r *Rng, n int, thorough bool, seeds []string) *OracleResult {
 		}(wi, w)
 	}
 	wg.Wait()
+	// second phase: all workers at once on the DICTIONARY packets - one circuit-id naming
+	// scheme, one vendor class each -, every worker decoding its own copies and walking
+	// the list from another starting point, the way a server's per-request handlers run
+	// the ZTP extractors on different clients' packets at the same moment.  (seeded
+	// change C03-19: a "matched last time" hint shared by all callers of
+	// ztpv4.ParseCircuitID, read twice.)
+	{
+		rr := NewRng(base ^ 0xd1c7)
+		var dict []*c03Case
+		for _, s := range circuitIDStrings {
+			p := richPkt4(rr, 0, false)
+			p.UpdateOption(dhcpv4.OptRelayAgentInfo(dhcpv4.OptGeneric(dhcpv4.AgentCircuitIDSubOption, []byte(s))))
+			dict = append(dict, &c03Case{entry: "v4", data: [][]byte{p.ToBytes()}, tag: "dictionary-concurrent"})
+		}
+		for _, s := range ztpClassStrings {
+			p := richPkt4(rr, 0, false)
+			p.UpdateOption(dhcpv4.OptClassIdentifier(s))
+			dict = append(dict, &c03Case{entry: "v4", data: [][]byte{p.ToBytes()}, tag: "dictionary-concurrent"})
+		}
+		reps := 6
+		if thorough {
+			reps = 40
+		}
+		for wi, w := range workers {
+			wg.Add(1)
+			go func(wi int, w *c03Worker) {
+				defer wg.Done()
+				for rep := 0; rep < reps; rep++ {
+					for k := range dict {
+						c := dict[(k*(2*wi+1)+wi*7+rep)%len(dict)]
+						w.tags["kind:"+c.tag]++
+						w.run(c, true)
+					}
+				}
+			}(wi, w)
+		}
+		wg.Wait()
+	}
 	close(stop)
 
 	// merge
